@@ -146,6 +146,9 @@ func runCase(c driver.Case) driver.Result {
 		return res
 	}
 	ms := func(ns int64) string { return fmt.Sprintf("%.3fms", float64(ns)/1e6) }
+	if strings.HasPrefix(op, "throttletime") && sd%2 == 1 {
+		d -= 200 * time.Microsecond // a window that is no whole number of milliseconds (0.8, 4.8, 19.8 ms)
+	}
 	n := 4 + rng.Intn(8)
 	gs := gaps(rng, d, n)
 	end := []rec.Kind{rec.Complete, rec.Complete, rec.Error, rec.Next}[rng.Intn(4)]
@@ -228,7 +231,7 @@ func runCase(c driver.Case) driver.Result {
 		k := 3 + rng.Intn(4)
 		initial := d
 		if op == "intervalinitial" {
-			initial = []time.Duration{d / 2, d, 2 * d, 0}[rng.Intn(4)]
+			initial = []time.Duration{d / 2, d, 2 * d, 0, -d, -1}[rng.Intn(6)] // a negative delay is no delay
 		}
 		var o ro.Observable[int64]
 		switch op {
@@ -262,7 +265,7 @@ func runCase(c driver.Case) driver.Result {
 				}
 				lower := int64(idx+1) * int64(d)
 				if op == "intervalinitial" {
-					lower = int64(initial) + idx*int64(d)
+					lower = max(int64(initial), 0) + idx*int64(d)
 				}
 				if e.T-ts < lower {
 					return fail("emitted-early", fmt.Sprintf("(initial %v) value %d delivered %s after subscription, not before %s is allowed", initial, idx, ms(e.T-ts), ms(lower)))
@@ -642,7 +645,7 @@ func main() {
 	driver.Main(driver.Property{
 		ID:        "C16",
 		Level:     "exploration",
-		Rule:      "seeded timelines (inter-arrival gaps from {0, d/4, d−ε, d, d+ε, 3d} with bursts; durations 1/5/20(/40) ms; ending complete/error/none; jitter or yields at the timer-goroutine hook points) through Delay, Timer, Interval, IntervalWithInitial (initial d/2, d, 2d, 0), RangeWithInterval, RepeatWithInterval, Timeout, ThrottleTime, SampleTime, BufferWithTime, BufferWithTimeOrCount, and Unsubscribe / context cancellation at a random instant. Monotonic timestamps are taken by the harness at emission and inside the recording observer. ONLY lower bounds and order/count relations are asserted (Delay: delivery − emission ≥ d, order kept, nothing lost at completion; periodic sources: value k not before (k+1)·p / initial + k·p, values 0,1,2…; Timeout: error not before d after the emission that armed it; ThrottleTime: two deliveries ≥ w apart measured from the first one's emission, first value delivered; SampleTime: m-th delivery not before (m+1)·p, output an increasing subsequence; time buffers: increasing subsequence, complete at completion, sizes ≤ count, m-th time-triggered buffer not before (m+1)·p; silence (≤1 in-flight value) after stop). Non-trivial: ≥1 timestamped event. Timeout additionally with an observer that dwells 0..2·d inside Next (timeout-slow); Timeout oracle: the deadline that fired was armed at subscription or when the observer returned from value j, and arm+d ≤ start of the observer's callback for value j+1. Periodic sources: the same observable value is subscribed twice, each subscription counts from 0 and from its own start.",
+		Rule:      "seeded timelines (inter-arrival gaps from {0, d/4, d−ε, d, d+ε, 3d} with bursts; durations 1/5/20(/40) ms; ending complete/error/none; jitter or yields at the timer-goroutine hook points) through Delay, Timer, Interval, IntervalWithInitial (initial d/2, d, 2d, 0, −d, −1ns), RangeWithInterval, RepeatWithInterval, Timeout, ThrottleTime, SampleTime, BufferWithTime, BufferWithTimeOrCount, and Unsubscribe / context cancellation at a random instant. Monotonic timestamps are taken by the harness at emission and inside the recording observer. ONLY lower bounds and order/count relations are asserted (Delay: delivery − emission ≥ d, order kept, nothing lost at completion; periodic sources: value k not before (k+1)·p / initial + k·p, values 0,1,2…; Timeout: error not before d after the emission that armed it; ThrottleTime (windows of whole and of fractional milliseconds): two deliveries ≥ w apart measured from the first one's emission, first value delivered; SampleTime: m-th delivery not before (m+1)·p, output an increasing subsequence; time buffers: increasing subsequence, complete at completion, sizes ≤ count, m-th time-triggered buffer not before (m+1)·p; silence (≤1 in-flight value) after stop). Non-trivial: ≥1 timestamped event. Timeout additionally with an observer that dwells 0..2·d inside Next (timeout-slow); Timeout oracle: the deadline that fired was armed at subscription or when the observer returned from value j, and arm+d ≤ start of the observer's callback for value j+1. Periodic sources: the same observable value is subscribed twice, each subscription counts from 0 and from its own start.",
 		Assume:    []string{"machine load can only delay deliveries; no upper bound on time is asserted"},
 		Plan:      plan,
 		Run:       runCase,
